@@ -292,8 +292,8 @@ pub struct RelReport {
 
 fn occurs(ds: &Dataset, pos: Pos, iri: &str) -> bool {
     match pos {
-        Pos::Subject => ds.quads().iter().any(|q| q.0 == iri),
-        Pos::Predicate => ds.quads().iter().any(|q| q.1 == iri),
+        Pos::Subject => ds.default.iter().chain(ds.named.values().flatten()).any(|t| t.0 == iri),
+        Pos::Predicate => ds.default.iter().chain(ds.named.values().flatten()).any(|t| t.1 == iri),
         Pos::Graph => ds.named.get(iri).map_or(false, |g| !g.is_empty()),
     }
 }
@@ -328,7 +328,10 @@ pub fn relative_iri_bindings(ds: &Dataset, u: &Update) -> Option<RelReport> {
             only.remove(&d.quad);
         }
     }
-    only.retain(|q| !after_dels.quads().contains(q));
+    if !only.is_empty() {
+        let kept = after_dels.quads();
+        only.retain(|q| !kept.contains(q));
+    }
     Some(RelReport { bindings: set.into_iter().collect(), inserts_only_via_unseen: only })
 }
 
